@@ -169,13 +169,17 @@ def _K_all(F, R):
     r_cloud.rule_K(F, R)
 
 
+def _cleanup_G4(F, R):
+    r_cloud.rule_cleanup(F, R, which=("G4",))
+
+
 G_SYNC = [r_sync.rule_S1, r_sync.rule_S2, r_sync.rule_S3, r_sync.rule_S4, r_sync.rule_S5, r_sync.rule_S6, r_sync.rule_S7, r_sync.rule_S8,
           r_sync.rule_S9, r_sync.rule_S10, r_sync.rule_S11, r_sync.rule_N1, r_sync.rule_N2, r_sync.rule_T1_sync, _T1_sync_action]
 G_TRANSFORM = [r_transform.rule_TP1, r_transform.rule_WIN, r_transform.rule_CANCEL, r_transform.rule_DELETE_WINS]
 G_WIRE = [r_wire.rule_W1, r_wire.rule_W2, r_wire.rule_W3, r_wire.rule_W4]
 G_APPLY = [r_taskdb.rule_A1, r_taskdb.rule_L1, r_taskdb.rule_L2, _T1_commit, r_taskdb.rule_ERR]
 G_SNAP = [r_storage.rule_N3, r_storage.rule_N3_overrides, r_storage.rule_N4, r_storage.rule_N5]
-G_SQLITE = [r_storage.rule_D, r_storage.rule_D6, r_storage.rule_Q1, r_storage.rule_Q2, r_storage.rule_Q3, r_storage.rule_Q4, r_storage.rule_Q5, r_storage.rule_Q7, r_storage.rule_Q9]
+G_SQLITE = [r_storage.rule_D, r_storage.rule_D6, r_storage.rule_Q1, r_storage.rule_Q2, r_storage.rule_Q3, r_storage.rule_Q4, r_storage.rule_Q5, r_storage.rule_Q7, r_storage.rule_Q9, r_storage.rule_Q10]
 G_INMEM = [r_storage.rule_Q6, r_storage.rule_Q8]
 G_SRV = [r_servers.rule_P1, r_servers.rule_P2, r_servers.rule_P4, r_servers.rule_P5, r_servers.rule_A1_local, r_servers.rule_A1_drop, _K_core, r_servers.rule_K7,
          r_servers.rule_GI, r_servers.rule_GC, r_servers.rule_GC3, r_servers.rule_GC4, r_servers.rule_GS1, r_servers.rule_GS2, r_servers.rule_GC6, r_servers.rule_GK1, _ED]
@@ -192,20 +196,20 @@ WIRING = {
     "C04": (G_SYNC + G_TRANSFORM + G_SNAP + G_SQLITE + G_INMEM + G_SRV + [r_taskdb.rule_R6],
             "an interrupted sync is repeatable: one transaction dropped on error (T1s, D2-D4, D6), emptiness judged with the pending operations (N3, N3o), own version cancelled (CANCEL), servers that survive a lost reply (K7, A1, GC4), working set rebuilt on the repeat (R6)"),
     "C05": (G_APPLY + G_SQLITE + G_INMEM, None),
-    "C06": (G_SQLITE + [r_sync.rule_T1_sync], None),
+    "C06": (G_SQLITE + G_APPLY + [r_sync.rule_T1_sync, r_taskdb.rule_U2], "an error inside commit, undo or rebuild abandons the transaction (ERR, U2): a swallowed error commits half an action"),
     "C07": (G_SQLITE + G_INMEM + G_SYNC + [r_taskdb.rule_A1, r_taskdb.rule_ERR], "undo on SQLite: the withdrawal compares decoded operations (Q4), the synced flag survives schema upgrades (Q5), the transaction is real (D)"),
     "C08": (G_SRV + G_CRYPTO, "every backend's acceptance and retrieval path including the sealing layer the three remote ones share (X2-X4, X7, X8)"),
-    "C09": ([r_servers.rule_K7], None),
-    "C10": ([_K_all, r_servers.rule_K7], "cleanup is safe only against an add_version that uploads the version before it swaps the head (K5) and never leaves the head naming a missing object (K7)"),
-    "C11": ([r_servers.rule_P5, r_servers.rule_P4, _cleanup_G, _ED], "a cleanup that stops between its deletions leaves a usable store (G4: snapshots go before the versions behind them)"),
+    "C09": ([r_servers.rule_K7, r_cloud.rule_K8, r_cloud.rule_K9, r_cloud.rule_G56], "where cleanup may run inside add_version (K8), what add_version itself may delete (K9), one head read per cleanup and no deletion outside it (G5, G6)"),
+    "C10": ([_K_all, r_servers.rule_K7, r_cloud.rule_K8, r_cloud.rule_K9, r_cloud.rule_G56], "K8/K9/G5/G6: cleanup only after a won swap, add_version deletes only its own upload, one head read per cleanup, no deletion outside cleanup; cleanup is safe only against an add_version that uploads the version before it swaps the head (K5) and never leaves the head naming a missing object (K7)"),
+    "C11": ([r_servers.rule_P5, r_servers.rule_P4, _cleanup_G, _ED, r_cloud.rule_K8, r_cloud.rule_K9], "a cleanup that stops between its deletions leaves a usable store (G4: snapshots go before the versions behind them)"),
     "C12": (G_SNAP + G_SYNC + G_INMEM + [r_storage.rule_Q1, _cleanup_G], "a snapshot that is still offered leads to the head: the object store deletes superseded snapshots before the versions behind the retained one (G2-G4)"),
     "C13": ([r_servers.rule_GS1, r_servers.rule_GS2], "the key a handle seals with is the one derived from the salt the remote holds (X7 for the object store, GS1 for git)"),
-    "C14": (G_WIRE + [r_sync.rule_S4, r_sync.rule_S9, r_sync.rule_S10], None),
+    "C14": (G_WIRE + [r_sync.rule_S4, r_sync.rule_S9, r_sync.rule_S10, r_storage.rule_Q10, r_storage.rule_Q7, r_storage.rule_Q4], "what is sent is what was committed: the SQLite storage removes recorded operations only in remove_operation and sync_complete (Q10, Q7, Q4)"),
     "C15": (G_WS + [r_storage.rule_Q3, r_storage.rule_Q6, r_storage.rule_D6], None),
     "C16": (G_SQLITE + G_INMEM + G_SNAP, None),
-    "C17": (G_SQLITE + [r_servers.rule_P5], None),
+    "C17": (G_SQLITE + [r_servers.rule_P5, r_taskdb.rule_R7, r_taskdb.rule_L1, r_taskdb.rule_L2], "no working-set entry duplicated by a second handle (R7: the add-once guard sees the whole stored working set inside the transaction) and a batch is one transaction (L2)"),
     "C19": ([r_taskdb.rule_A1, r_taskdb.rule_L1, r_taskdb.rule_L2], None),
-    "C20": (G_SYNC + G_SNAP + G_INMEM + [r_transform.rule_DELETE_WINS, r_taskdb.rule_A1], None),
+    "C20": (G_SYNC + G_SNAP + G_INMEM + [r_transform.rule_DELETE_WINS, r_taskdb.rule_A1, _cleanup_G4], "G4: the object store never keeps an older snapshot (holding the expired task) while the versions carrying its deletion are gone"),
 }
 
 
@@ -231,7 +235,7 @@ def _apply_wiring():
                 continue
             if n == "_ED" and ("rule_ED" in src_names):
                 continue
-            if n == "_cleanup_G" and ("rule_cleanup" in src_names):
+            if n in ("_cleanup_G", "_cleanup_G4") and ("rule_cleanup" in src_names):
                 continue
             spec["rules"].append(r)
             have.add(n)
